@@ -148,5 +148,14 @@ void SerialAssembleAction::onReset()
     AssembleAction::onReset();
 }
 
+void SerialAssembleAction::onFinished(bool is_succ, const Reason &why, const Trace &trace)
+{
+    //! 有可能不是子动作自然结束产生的finish，比如超时。此时要停止还在执行的子动作
+    stopCurrAction();
+    child_finish_func_ = nullptr;
+
+    AssembleAction::onFinished(is_succ, why, trace);
+}
+
 }
 }
